@@ -109,3 +109,8 @@ for (const s of machine.history) {
 }
 console.log(log, counts, machine.current as string);
 export { EventBus, Machine, foo, bar };
+
+// dangling commas before a closer
+foo(alpha, beta, gamma,);
+const trailing = [one, two, three,];
+bar({ k: 1, l: 2, }, [p, q,],);
